@@ -9,7 +9,7 @@
 (* generated code starts a segment that carries it as its name; segments    *)
 (* are ordered by generated position.  Drift: the XjsWriter machine, fed    *)
 (* with the recorded operations, records exactly the decoded segments.      *)
-EXTENDS XjsSourceMap, XjsWriter, Json, IOUtils
+EXTENDS XjsSourceMap, XjsWriter, XjsLexer, Json, IOUtils
 
 CONSTANT Shards
 Trace == ndJsonDeserialize(IOEnv.VERIF_TRACE)
@@ -26,20 +26,25 @@ IsMalformed(segs) == Len(segs) = 1 /\ "malformed" \in DOMAIN segs[1]
 SameLexeme(o, s) == o.ty = s.ty /\ (o.ty \in {"IDENT", "INT", "FLOAT"} => o.lit = s.lit)
 PosLE(l1, c1, l2, c2) == l1 < l2 \/ (l1 = l2 /\ c1 <= c2)
 
+\* the source tokens with their TRUE start positions: the lexer model run on the source bytes
+\* (independent of the positions the real lexer reports)
+SrcToks(r) == LET m == LexAll(r.src, 0) IN [j \in 1..Len(m) |-> [ty |-> m[j].ty, lit |-> m[j].lit, sl |-> m[j].sl, sc |-> m[j].sc]]
+
 C08_Failures(r) ==
-  LET segs == Decode(r.map.mappings) IN
+  LET segs == Decode(r.map.mappings)
+      stoks == SrcToks(r) IN
   IF IsMalformed(segs) \/ r.map.version # 3 THEN {"map_does_not_decode"}
   ELSE
   LET full == SelectSeq(segs, LAMBDA g : "sl" \in DOMAIN g) IN
   (IF \A k \in 1..Len(full) :
-        \E o \in 1..Len(r.otoks) : \E s \in 1..Len(r.stoks) :
+        \E o \in 1..Len(r.otoks) : \E s \in 1..Len(stoks) :
            /\ r.otoks[o].sl = full[k].gl /\ r.otoks[o].sc = full[k].gc
-           /\ r.stoks[s].sl = full[k].sl /\ r.stoks[s].sc = full[k].sc
-           /\ SameLexeme(r.otoks[o], r.stoks[s])
+           /\ stoks[s].sl = full[k].sl /\ stoks[s].sc = full[k].sc
+           /\ SameLexeme(r.otoks[o], stoks[s])
    THEN {} ELSE {"segment_does_not_link_identical_lexemes"})
   \cup (IF \A o \in 1..Len(r.otoks) : r.otoks[o].ty = "IDENT" =>
              \E k \in 1..Len(full) : /\ full[k].gl = r.otoks[o].sl /\ full[k].gc = r.otoks[o].sc /\ full[k].named
-                                     /\ full[k].ni + 1 \in 1..Len(r.map.names) /\ r.map.names[full[k].ni + 1] = r.otoks[o].lit
+                                     /\ full[k].ni + 1 \in 1..Len(r.map.names) /\ r.map.names[full[k].ni + 1] = r.otoks[o].name
         THEN {} ELSE {"identifier_without_named_segment"})
   \cup (IF \A k \in 1..(Len(segs) - 1) : PosLE(segs[k].gl, segs[k].gc, segs[k + 1].gl, segs[k + 1].gc)
         THEN {} ELSE {"segments_not_ordered"})
